@@ -10,6 +10,8 @@ import (
 	"path/filepath"
 	"strings"
 
+	libshare "github.com/celestiaorg/go-square/v4/share"
+
 	"github.com/celestiaorg/celestia-node/share/eds"
 	"github.com/celestiaorg/celestia-node/share/shwap"
 	"github.com/celestiaorg/celestia-node/store/file"
@@ -180,6 +182,63 @@ func (c *c05Ctx) fileLevel(dir string) {
 			return acc, nil
 		})
 	}
+
+	// the parity file is present but incomplete (the process died while PutODSQ4 was writing it) or over-long:
+	// the accessor must not serve it - neither on the first parity read nor on a later one of the same instance
+	for _, tl := range c.q4Lengths() {
+		pO := filepath.Join(dir, "trunc-"+tl.label+".ods")
+		pQ := filepath.Join(dir, "trunc-"+tl.label+".q4")
+		if err := file.CreateODSQ4(pO, pQ, c.roots, c.S.EDS); err != nil {
+			c.infra("CreateODSQ4: %v", err)
+			return
+		}
+		if err := os.Truncate(pQ, int64(tl.n)); err != nil {
+			c.infra("truncate: %v", err)
+			return
+		}
+		open := func() (eds.AccessorStreamer, error) {
+			o, err := file.OpenODS(pO)
+			if err != nil {
+				return nil, err
+			}
+			return file.ODSWithQ4(o, pQ), nil
+		}
+		passes := []string{"cold-light", "warm-light"}
+		if tl.full {
+			passes = []string{"cold", "warm"}
+		}
+		c.twoPasses(&c05Rep{name: "file:odsq4-q4-incomplete-" + tl.label + "/plain", class: "odsq4-q4-incomplete/plain"},
+			open, "cold-light", "warm-light")
+		c.twoPasses(&c05Rep{name: "file:odsq4-q4-incomplete-" + tl.label + "/store-wrap", class: "odsq4-q4-incomplete/store-wrap", validated: true},
+			func() (eds.AccessorStreamer, error) {
+				x, err := open()
+				if err != nil {
+					return nil, err
+				}
+				return wrapAccessor(x), nil
+			}, passes...)
+	}
+}
+
+type c05Q4Len struct {
+	label string
+	n     int
+	full  bool // full operation list (the other lengths get the short list)
+}
+
+// q4Lengths: the sizes an incomplete parity file is cut to (the complete size itself is left out).
+func (c *c05Ctx) q4Lengths() []c05Q4Len {
+	size := c.W * c.W * libshare.ShareSize
+	var out []c05Q4Len
+	seen := map[int]bool{size: true}
+	for _, l := range []c05Q4Len{{"0-bytes", 0, true}, {"size-minus-1-byte", size - 1, true}, {"1-share", libshare.ShareSize, false},
+		{"half", size / 2, false}, {"size-plus-1-byte", size + 1, false}} {
+		if !seen[l.n] {
+			seen[l.n] = true
+			out = append(out, l)
+		}
+	}
+	return out
 }
 
 // ---------------------------------------------------------------- the store
@@ -314,6 +373,74 @@ func (c *c05Ctx) storeLevel(dir string) {
 	c.twoPasses(rep("ods-only-nocache/serving-cache-load"), cachedByHeight(csD, c05Height), "cold")
 	c.passGetter(rep("ods-only-nocache/Getter-via-serving-cache"), NewGetter(stD), c05Height, "hit")
 	c.dropCached(stD, c05Height)
+
+	if isEmpty {
+		return // the empty block's files are rewritten by every NewStore
+	}
+	qsize := c.W * c.W * libshare.ShareSize
+
+	// --- E: stored with parity quadrant, the parity file then cut short (crash while writing it), directory re-opened
+	dirC := filepath.Join(dir, "storeC")
+	dirD := filepath.Join(dir, "storeD")
+	for _, d := range []string{dirC, dirD} {
+		if err := os.Mkdir(d, 0o755); err != nil {
+			c.infra("mkdir: %v", err)
+			return
+		}
+	}
+	stE, err := NewStore(DefaultParameters(), dirC)
+	if err != nil {
+		c.infra("NewStore(C): %v", err)
+		return
+	}
+	if err := stE.PutODSQ4(c.ctx, c.roots, c05Height, c.S.EDS); err != nil {
+		c.ri, c.pass = rep("put"), "put"
+		c.fail("put", "error", "", fmt.Sprintf("PutODSQ4 failed: %v", err))
+		return
+	}
+	c.dropCached(stE, c05Height)
+	pQ := stE.hashToPath(c.dhash, q4FileExt)
+	if err := os.Truncate(pQ, int64(qsize-1)); err != nil {
+		c.infra("truncate: %v", err)
+		return
+	}
+	stF, err := NewStore(DefaultParameters(), dirC)
+	if err != nil {
+		c.infra("NewStore(C reopen): %v", err)
+		return
+	}
+	c.twoPasses(rep("reopen-q4-incomplete/GetByHeight"), byHeight(stF, c05Height))
+	csF, err := stF.WithCache("serving", 4)
+	if err != nil {
+		c.infra("WithCache: %v", err)
+		return
+	}
+	c.twoPasses(rep("reopen-q4-incomplete/serving-cache-load"), cachedByHeight(csF, c05Height), "cold-light", "warm-light")
+	c.passGetter(rep("reopen-q4-incomplete/Getter-via-serving-cache"), NewGetter(stF), c05Height, "hit")
+	c.dropCached(stF, c05Height)
+	if err := os.Truncate(pQ, 0); err != nil {
+		c.infra("truncate: %v", err)
+		return
+	}
+	c.twoPasses(rep("reopen-q4-incomplete/GetByHash-empty-q4"), func() (eds.AccessorStreamer, error) { return stF.GetByHash(c.ctx, c.dhash) },
+		"cold-light", "warm-light")
+
+	// --- F: an incomplete parity file is left over from an earlier attempt, the block is then stored ODS-only
+	stG, err := NewStore(&Parameters{RecentBlocksCacheSize: 0}, dirD)
+	if err != nil {
+		c.infra("NewStore(D): %v", err)
+		return
+	}
+	if err := os.WriteFile(stG.hashToPath(c.dhash, q4FileExt), make([]byte, qsize/2), 0o644); err != nil {
+		c.infra("leftover q4: %v", err)
+		return
+	}
+	if err := stG.PutODS(c.ctx, c.roots, c05Height, c.S.EDS); err != nil {
+		c.ri, c.pass = rep("put-ods"), "put"
+		c.fail("put", "error", "", fmt.Sprintf("PutODS over a leftover parity file failed: %v", err))
+		return
+	}
+	c.twoPasses(rep("ods-put-over-leftover-q4/GetByHeight"), byHeight(stG, c05Height))
 }
 
 // dropCached closes whatever the store's caches still hold (file handles), so nothing leaks between squares.
